@@ -79,6 +79,24 @@ run(const hx_variant *v, int mode, uint64_t flo, uint64_t fhi)
                 return;
         if (reuse)
                 dirty(m, &dirty_rng);
+        int preerr = 0;
+        if (reuse && (nruns & 1)) {
+                /* every second time the last thing the manager saw is a rejected job: it holds a non-zero error code when
+                 * it is initialised again (the self-test must run all the same) */
+                hx_spec sp;
+                hx_job j;
+                hx_spec_from_kind("CBC128E", &dirty_rng, &sp);
+                sp.placement = GA_SLACK;
+                if (hx_job_build(m, &sp, 9999, &j) == 0) {
+                        IMB_JOB *slot = IMB_GET_NEXT_JOB(m);
+                        hx_job_to_slot(&j, slot);
+                        slot->src = NULL;
+                        (void) IMB_SUBMIT_JOB(m);
+                        preerr = m->imb_errno;
+                        hx_job_free(&j);
+                        ga_reset();
+                }
+        }
         imb_self_test_set_cb(m, cb, NULL);
         nev = 0;
         cur_test = 0;
@@ -101,6 +119,7 @@ run(const hx_variant *v, int mode, uint64_t flo, uint64_t fhi)
         tr_str("variant", v->name);
         tr_str("init", use_auto ? "auto" : "explicit");
         tr_int("used", reuse ? 1 : 0);
+        tr_int("preerr", preerr);
         int faults[128], nf = 0;
         for (int i = 0; i < 128; i++)
                 if (i < 64 ? ((flo >> i) & 1) : ((fhi >> (i - 64)) & 1))
